@@ -32,6 +32,19 @@ def scalar(rnd):
         return ("k:near-n", N - rnd.randrange(1, 1 << 20))
     if r < 0.45:
         return ("k:small", rnd.randrange(1, 1 << 16))
+    if r < 0.57:
+        # byte patterns at either END of ser256(k) that mean something in a neighbouring encoding: 01 = WIF compression
+        # flag, 00 = pad byte, 02/03/04 = SEC prefixes, blanks/newline = what str/bytes.strip removes
+        first = rnd.choice([None, None, 0x02, 0x03, 0x04, 0x00, 0x80, 0xEF, 0x20])
+        last = rnd.choice([0x01, 0x01, 0x00, 0x20, 0x0A, 0x09, 0x0D, 0x02, None])
+        b = bytearray(rbytes(rnd, 32))
+        b[0] &= 0x7F
+        if first is not None:
+            b[0] = first
+        if last is not None:
+            b[31] = last
+        k = int.from_bytes(bytes(b), "big") % N or 1
+        return ("k:ends:%s-%s" % ("%02x" % first if first is not None else "xx", "%02x" % last if last is not None else "xx"), k)
     return ("k:random", rnd.randrange(1, N))
 
 
@@ -162,3 +175,19 @@ def path_form(form, path):
     if form == "map":
         return map(int, path)
     return path
+
+
+def special_master_seed(rnd, want, tries=4000):
+    """Search (with the standard library's HMAC - the search is not the oracle) a 32-byte seed whose BIP32 master key /
+    chain code has a given byte at an end: want = ("k_last", 0x01) | ("k_first", 0x00) | ("c_first", 0x00) | ("c_last", 0x01) ...
+    Returns the seed or None."""
+    import hashlib
+    import hmac
+    field, val = want
+    for _ in range(tries):
+        sd = rbytes(rnd, 32)
+        I = hmac.new(b"Bitcoin seed", sd, hashlib.sha512).digest()
+        b = {"k_last": I[31], "k_first": I[0], "c_first": I[32], "c_last": I[63]}[field]
+        if b == val and 0 < int.from_bytes(I[:32], "big") < N:
+            return sd
+    return None
